@@ -14,7 +14,7 @@ Mirrors `metadata.py` as it is:
   (`canonicalize_name(validate=True)`, `version.parse`, `SpecifierSet`, `Requirement`,
   `canonicalize_license_expression`, `email.message` content-type parsing, `str.lower`, `pathlib`) is
   an `Oracle` — the model and all theorems are parametric in it, the harness tabulates it per case,
-* `fromRaw` takes the iteration order of the `frozenset` `fields_to_check` as a parameter `ks`.
+* `fromRaw` takes the order in which the validation loop visits `fields_to_check` as a parameter `ks` (since fix e4c9f10: sorted; the harness computes it by the same steps as the code).
 -/
 namespace Meta
 open Py Gen.Meta
@@ -79,7 +79,7 @@ inductive Verdict where
 /-- `EmailMessage()["content-type"] = value`, then `get_content_type().lower()` and `.params` -/
 inductive CTVerdict where
   | parsed (ctype : Str) (charset variant : Option Str)
-  | bad                  -- the header setter's `ValueError` (e.g. a line break in the value)
+  | bad                  -- the header setter's `ValueError` / `IndexError` (a line break in the value; an RFC 2231 parameter the parser chokes on)
   | esc (cls : Str)
   deriving DecidableEq, Repr
 
